@@ -153,11 +153,21 @@ def tmax(*xs):
 
 
 def div(a, b):
-    return root(('div', as_lin(a), as_lin(b)))
+    a, b = as_lin(a), as_lin(b)
+    if a == const(0):
+        return const(0)       # 0 / b (b = 0 panics in every profile; not a value)
+    if is_const(a) and is_const(b) and b[1] != 0:
+        return const(a[1] // b[1])
+    return root(('div', a, b))
 
 
 def rem(a, b):
-    return root(('rem', as_lin(a), as_lin(b)))
+    a, b = as_lin(a), as_lin(b)
+    if a == const(0):
+        return const(0)
+    if is_const(a) and is_const(b) and b[1] != 0:
+        return const(a[1] % b[1])
+    return root(('rem', a, b))
 
 
 # ------------------------------------------------------------------ booleans
@@ -407,6 +417,10 @@ def renorm(t):
             return unroot(ind(t[1]))
         if tag == 'mul':
             return unroot(mul(t[1], t[2]))
+        if tag == 'div':
+            return unroot(div(t[1], t[2]))
+        if tag == 'rem':
+            return unroot(rem(t[1], t[2]))
         if tag == 'f':
             return fld(t[1], t[2])
         if tag == 'call':
